@@ -33,7 +33,7 @@ def injected(tier, seed):
                             "counts": [[rnd.randint(0, 9) for _ in range(n)] if rnd.random() < 0.5 else [] for _ in range(4)],
                             "input_counted": [True] * 4})
                 k += 1
-    for j in range(800 if tier == "quick" else 6000):
+    for j in range(2000 if tier == "quick" else 20000):
         n = rnd.choice([0, 1, 2, 3, 4, 5, 6, 7, 8])
         size = rnd.choice([1, 1, 2, 3, 7, 100])
         pool = rnd.choice([[5], [0, 1], [10, 11, 12], list(range(0, 2000, 37)), [0, 999999, 123456]])
@@ -56,7 +56,7 @@ def injected(tier, seed):
 def bench_scenarios(tier, seed):
     rnd = random.Random(seed * 331 + 3)
     scs = []
-    for j in range(300 if tier == "quick" else 2000):
+    for j in range(600 if tier == "quick" else 6000):
         sc = G.base(rnd, f"b{j}", action="bench")
         sc["options"] = {"sample_count": rnd.choice([0, 1, 2, 3, 4, 5, 7]), "sample_size": rnd.choice([0, 1, 2, 3])}
         if rnd.random() < 0.3:
@@ -68,6 +68,21 @@ def bench_scenarios(tier, seed):
             if sc["entry"] not in ("bench", "bench_local"):
                 sc["input_counters"] = sorted(rnd.sample([0, 1, 2, 3], rnd.choice([1, 2])))
                 sc["count_values"] = [rnd.randint(0, 9) for _ in range(rnd.choice([3, 5, 7]))]
+                if rnd.random() < 0.25:
+                    sc["late_counters"] = [[rnd.choice(sc["input_counters"]), rnd.randint(0, 1000)]]
+        elif sc["entry"] not in ("bench", "bench_local") and rnd.random() < 0.5:
+            # explicit sample size with per-input counters; some with a constant counter of the
+            # same kind configured before (attribute / run time) or given to the Bencher afterwards
+            sc["input_counters"] = sorted(rnd.sample([0, 1, 2, 3], rnd.choice([1, 2])))
+            sc["count_values"] = [rnd.randint(0, 9) for _ in range(rnd.choice([3, 5, 7]))]
+            k = rnd.choice(sc["input_counters"])
+            r = rnd.random()
+            if r < 0.3:
+                sc["option_counters"] = [[k, rnd.randint(0, 1000)]]
+            elif r < 0.5:
+                sc["bencher_counters"] = [[k, rnd.randint(0, 1000)]]
+            elif r < 0.7:
+                sc["late_counters"] = [[k, rnd.randint(0, 1000)]]
         if rnd.random() < 0.15:
             sc["options"]["max_time_ns"] = 0
         sc["alloc_script"] = G.rand_alloc_script(rnd, heavy=True)
